@@ -1,11 +1,14 @@
 import AuModel.Unit
 import AuModel.UnitKey
+import AuModel.UnitOrder
 import Driver.Util
 
 /-! Driver commands for C02 (and the unit-expression parser shared with C07/C10/C14/C18).
 
   unit <sexpr>      →  dim=<pack> mag=<pack>
-  sexpr ::= ( n <id> <dimpack> <magpack> ) | ( mul e e ) | ( div e e ) | ( pow e <num>/<den> )
+  unitorder <sexpr> ; <sexpr> ; ...   →  one row of 0/1 per unit: `InOrderFor<UnitProduct, S_i, S_j>` by the model of
+                                          the library's own order (AuModel.UnitOrder), then `av=` the avoidance classes
+  sexpr ::= ( n <id> <dimpack> <magpack> ) | ( no <id> <dimpack> <magpack> <origin> <avoidance> ) | ( mul e e ) | ( div e e ) | ( pow e <num>/<den> )
           | ( scale e <magpack> )
   pack  ::= - | base^num/den{,base^num/den}     base ::= d<int> | p<nat> | pi
 -/
@@ -44,38 +47,46 @@ def parseDim? : String → Option Dim := parsePackWith parseDimBase?
 structure Parsed where
   expr : UExpr
   atoms : List (Nat × Dim × Mag)
+  extra : List (Nat × Rat × Nat) := []     -- (id, origin position, UnitAvoidance) of `no` atoms
 
 partial def parseExpr : List String → Option (Parsed × List String)
   | "(" :: "n" :: id :: d :: m :: ")" :: rest => do
     let id ← id.toNat?
     let d ← parseDim? d
     let m ← parseMag? m
-    pure (⟨.atom (.named id), [(id, d, m)]⟩, rest)
+    pure ({ expr := .atom (.named id), atoms := [(id, d, m)] }, rest)
+  | "(" :: "no" :: id :: d :: m :: o :: av :: ")" :: rest => do
+    let id ← id.toNat?
+    let d ← parseDim? d
+    let m ← parseMag? m
+    let o ← parseRat? o
+    let av ← av.toNat?
+    pure ({ expr := .atom (.named id), atoms := [(id, d, m)], extra := [(id, o, av)] }, rest)
   | "(" :: "mul" :: rest => do
     let (a, rest) ← parseExpr rest
     let (b, rest) ← parseExpr rest
     match rest with
-    | ")" :: rest => pure (⟨.mul a.expr b.expr, a.atoms ++ b.atoms⟩, rest)
+    | ")" :: rest => pure ({ expr := .mul a.expr b.expr, atoms := a.atoms ++ b.atoms, extra := a.extra ++ b.extra }, rest)
     | _ => none
   | "(" :: "div" :: rest => do
     let (a, rest) ← parseExpr rest
     let (b, rest) ← parseExpr rest
     match rest with
-    | ")" :: rest => pure (⟨.div a.expr b.expr, a.atoms ++ b.atoms⟩, rest)
+    | ")" :: rest => pure ({ expr := .div a.expr b.expr, atoms := a.atoms ++ b.atoms, extra := a.extra ++ b.extra }, rest)
     | _ => none
   | "(" :: "pow" :: rest => do
     let (a, rest) ← parseExpr rest
     match rest with
     | q :: ")" :: rest => do
       let q ← parseRat? q
-      pure (⟨.pow a.expr q, a.atoms⟩, rest)
+      pure ({ a with expr := .pow a.expr q }, rest)
     | _ => none
   | "(" :: "scale" :: rest => do
     let (a, rest) ← parseExpr rest
     match rest with
     | m :: ")" :: rest => do
       let m ← parseMag? m
-      pure (⟨.scale a.expr m, a.atoms⟩, rest)
+      pure ({ a with expr := .scale a.expr m }, rest)
     | _ => none
   | _ => none
 
@@ -108,7 +119,36 @@ def cmdPackLt (args : List String) : String :=
     | _, _ => "bad-op"
   | _ => "bad-op"
 
+def ordEnvOf (atoms : List (Nat × Dim × Mag)) (extra : List (Nat × Rat × Nat)) : OrdEnv where
+  toEnv := envOf atoms
+  origin n := match extra.find? (fun a => a.1 == n) with
+    | some a => a.2.1
+    | none => 0
+  avoid n := match extra.find? (fun a => a.1 == n) with
+    | some a => a.2.2
+    | none => 0
+
+/-- Split a token list at the separator `;`. -/
+def splitSemi (toks : List String) : List (List String) :=
+  let (acc, cur) := toks.foldl (fun (st : List (List String) × List String) t =>
+    if t == ";" then (st.2.reverse :: st.1, []) else (st.1, t :: st.2)) ([], [])
+  (cur.reverse :: acc).reverse
+
+/-- `unitorder e1 ; e2 ; ...`: every expression is evaluated to a unit type WITH the library's order (so that the
+products are assembled as the library assembles them), then all ordered pairs are compared. -/
+def cmdUnitOrder (toks : List String) : String :=
+  match (splitSemi toks).mapM (fun g => match parseExpr g with
+      | some (p, []) => some p
+      | _ => none) with
+  | some ps =>
+    let oe := ordEnvOf (ps.flatMap (·.atoms)) (ps.flatMap (·.extra))
+    let us := ps.map (fun p => p.expr.eval (U.libLt oe))
+    let rows := us.map (fun a => String.ofList (us.map (fun b => if U.libLt oe a b then '1' else '0')))
+    " ".intercalate rows ++ " av=" ++ ",".intercalate (us.map (fun u => toString (u.avoidance oe)))
+  | none => "bad-op"
+
 def dispatchC02 : List String → Option String
   | "unit" :: args => some (cmdUnit args)
+  | "unitorder" :: args => some (cmdUnitOrder args)
   | "packlt" :: args => some (cmdPackLt args)
   | _ => none
